@@ -847,6 +847,63 @@ func c17NoDowngrade(c *Ctx) {
 	}
 }
 
+// c17ProfileCarried (added after the seeded change C17-r3m1 was missed: the transport pre-set for
+// the re-SETUP after a UDP timeout no longer carried the negotiated profile, so the session went on
+// as RTP/AVP): a SessionTransport value that leaves its Profile at the zero value is RTP/AVP. Every
+// SessionTransport built in the library sets Profile, and from a value (the negotiated or the
+// previous profile), not from a constant.
+func c17ProfileCarried(c *Ctx) {
+	p, r := c.P, c.R
+	r.Rule("C17/PROFILE-CARRIED", "every SessionTransport the library builds sets its Profile from a negotiated or previous value: a literal that omits it (or fixes it) silently means RTP/AVP, which is how a secure session is downgraded when a transport is re-created (protocol switch, retry)", 5)
+	prof := p.Field("", "SessionTransport", "Profile")
+	if !r.Anchor("C17/PROFILE-CARRIED", "SessionTransport.Profile", prof != nil) {
+		return
+	}
+	nth := map[string]int{}
+	for _, fn := range p.SrcFuncs() {
+		pk := core.FuncPkg(fn)
+		if pk == nil || core.Rel(pk.Path()) != "" {
+			continue
+		}
+		for _, b := range fn.Blocks {
+			for _, in := range b.Instrs {
+				al, ok := in.(*ssa.Alloc)
+				if !ok || core.NamedOfShort(core.Deref(al.Type())) != "SessionTransport" || al.Comment == "" && !al.Heap {
+					continue
+				}
+				// only values built here field by field (composite literals, new + assignments)
+				built, set, fixed := false, false, false
+				for _, rr := range *al.Referrers() {
+					fa, ok := rr.(*ssa.FieldAddr)
+					if !ok {
+						continue
+					}
+					for _, r2 := range *fa.Referrers() {
+						st, ok := r2.(*ssa.Store)
+						if !ok || st.Addr != ssa.Value(fa) {
+							continue
+						}
+						built = true
+						if core.SameField(core.FieldOfAddr(fa), prof) {
+							set = true
+							if _, isK := st.Val.(*ssa.Const); isK {
+								fixed = true
+							}
+						}
+					}
+				}
+				if !built {
+					continue
+				}
+				k := fnShort(fn)
+				nth[k]++
+				r.Check(set && !fixed, "C17/PROFILE-CARRIED", fmt.Sprintf("%s builds a SessionTransport #%d", k, nth[k]), p.Pos(al.Pos()), "Profile set from a value",
+					"the transport is built without a profile (or with a fixed one): it means RTP/AVP whatever was negotiated, and the media goes on unencrypted")
+			}
+		}
+	}
+}
+
 func init() {
 	Registry["C17"] = func(c *Ctx) {
 		c.R.NotDecided = append(c.R.NotDecided, "key agreement through MIKEY (value level); confidentiality as an observation of bytes on the wire; rejection of altered packets (pion/srtp)")
@@ -854,6 +911,7 @@ func init() {
 		c17DecryptBeforeParse(c)
 		c17Admission(c)
 		c17NoDowngrade(c)
+		c17ProfileCarried(c)
 		c17CtxLock(c)
 	}
 	Registry["C18"] = func(c *Ctx) {
@@ -1104,12 +1162,16 @@ func edgeIsSecure(pred, succ *ssa.BasicBlock) bool {
 	return false
 }
 
-func c18SinkBound(c *Ctx) {
+func c18SinkBound(c *Ctx) { sinkBoundRule(c, "C18/SINK-BOUND") }
+
+// sinkBoundRule is shared with C01 (a packet longer than the frame buffer is cut on the wire and
+// desynchronises the reader: "delivered intact" rests on the bound).
+func sinkBoundRule(c *Ctx, rule string) {
 	p, r := c.P, c.R
-	r.Rule("C18/SINK-BOUND", "every write entry point bounds what it sends: RTP is marshalled into a buffer of MaxPacketSize (minus srtpOverhead when encrypting) and a MarshalTo error returns before anything leaves; RTCP is refused when longer than MaxPacketSize (minus srtcpOverhead when encrypting) before anything leaves; the encryption target is a MaxPacketSize buffer", 14)
+	r.Rule(rule, "every write entry point bounds what it sends: RTP is marshalled into a buffer of MaxPacketSize (minus srtpOverhead when encrypting) and a MarshalTo error returns before anything leaves; RTCP is refused when longer than MaxPacketSize (minus srtcpOverhead when encrypting) before anything leaves; the encryption target is a MaxPacketSize buffer", 14)
 	srtpOv, ok1 := constValue(p, "srtpOverhead")
 	srtcpOv, ok2 := constValue(p, "srtcpOverhead")
-	if !r.Anchor("C18/SINK-BOUND", "constants srtpOverhead / srtcpOverhead", ok1 && ok2) {
+	if !r.Anchor(rule, "constants srtpOverhead / srtcpOverhead", ok1 && ok2) {
 		return
 	}
 	for _, fn := range writeEntries(p) {
@@ -1142,7 +1204,7 @@ func c18SinkBound(c *Ctx) {
 					okDst = true
 				}
 			}
-			r.Check(okDst, "C18/SINK-BOUND", fmt.Sprintf("%s encrypt#%d target", fnShort(fn), i+1), p.Pos(e.Pos()), "make([]byte, MaxPacketSize)", "the encryption target is not a MaxPacketSize buffer")
+			r.Check(okDst, rule, fmt.Sprintf("%s encrypt#%d target", fnShort(fn), i+1), p.Pos(e.Pos()), "make([]byte, MaxPacketSize)", "the encryption target is not a MaxPacketSize buffer")
 		}
 		isProbe := func() bool {
 			// every Marshal in the function is applied to a composite literal built in place (firewall probes)
@@ -1183,11 +1245,11 @@ func c18SinkBound(c *Ctx) {
 			dst := marshalTo.Call.Args[1]
 			ms, ok := dst.(*ssa.MakeSlice)
 			if !ok {
-				r.Fail("C18/SINK-BOUND", fnShort(fn)+" RTP marshal buffer", p.Pos(marshalTo.Pos()), "MarshalTo does not target a freshly made buffer")
+				r.Fail(rule, fnShort(fn)+" RTP marshal buffer", p.Pos(marshalTo.Pos()), "MarshalTo does not target a freshly made buffer")
 				break
 			}
 			ok2, why := plainBudget(ms.Len, srtpOv)
-			r.Check(ok2, "C18/SINK-BOUND", fnShort(fn)+" RTP marshal buffer", p.Pos(ms.Pos()), fmt.Sprintf("make([]byte, MaxPacketSize [- %d when encrypting])", srtpOv), why)
+			r.Check(ok2, rule, fnShort(fn)+" RTP marshal buffer", p.Pos(ms.Pos()), fmt.Sprintf("make([]byte, MaxPacketSize [- %d when encrypting])", srtpOv), why)
 			// error returns before any escape
 			okErr := true
 			for _, e := range escapesOf(fn) {
@@ -1200,9 +1262,9 @@ func c18SinkBound(c *Ctx) {
 					okErr = false
 				}
 			}
-			r.Check(okErr, "C18/SINK-BOUND", fnShort(fn)+" MarshalTo error returns first", p.Pos(marshalTo.Pos()), "every escape and every encrypt call sits on the err == nil edge of MarshalTo", "a packet that does not fit the buffer can still be sent")
+			r.Check(okErr, rule, fnShort(fn)+" MarshalTo error returns first", p.Pos(marshalTo.Pos()), "every escape and every encrypt call sits on the err == nil edge of MarshalTo", "a packet that does not fit the buffer can still be sent")
 		case isProbe:
-			r.OK("C18/SINK-BOUND", fnShort(fn)+" constant-size probes", p.Pos(fn.Pos()), "only zero-valued RTP/RTCP literals are marshalled here (firewall probes)")
+			r.OK(rule, fnShort(fn)+" constant-size probes", p.Pos(fn.Pos()), "only zero-valued RTP/RTCP literals are marshalled here (firewall probes)")
 		case marshal != nil:
 			// RTCP: len(plain) > budget returns before any escape / encrypt
 			var guard *ssa.If
@@ -1237,16 +1299,16 @@ func c18SinkBound(c *Ctx) {
 				secure, plain := lx.s-ly.s, lx.p-ly.p
 				switch {
 				case secure < srtcpOv:
-					r.Fail("C18/SINK-BOUND", fnShort(fn)+" RTCP length guard budget", p.Pos(iff.Pos()), fmt.Sprintf("with an SRTP context set the plain budget is not MaxPacketSize - %d", srtcpOv))
+					r.Fail(rule, fnShort(fn)+" RTCP length guard budget", p.Pos(iff.Pos()), fmt.Sprintf("with an SRTP context set the plain budget is not MaxPacketSize - %d", srtcpOv))
 					continue
 				case plain < 0:
-					r.Fail("C18/SINK-BOUND", fnShort(fn)+" RTCP length guard budget", p.Pos(iff.Pos()), "without SRTP the plain budget is not MaxPacketSize")
+					r.Fail(rule, fnShort(fn)+" RTCP length guard budget", p.Pos(iff.Pos()), "without SRTP the plain budget is not MaxPacketSize")
 					continue
 				}
 				guard = iff
 			}
 			if guard == nil {
-				r.Fail("C18/SINK-BOUND", fnShort(fn)+" RTCP length guard", p.Pos(marshal.Pos()), fmt.Sprintf("no `len(marshalled) > MaxPacketSize [- %d]` test found", srtcpOv))
+				r.Fail(rule, fnShort(fn)+" RTCP length guard", p.Pos(marshal.Pos()), fmt.Sprintf("no `len(marshalled) > MaxPacketSize [- %d]` test found", srtcpOv))
 				break
 			}
 			// true edge returns an error
@@ -1267,7 +1329,7 @@ func c18SinkBound(c *Ctx) {
 					okDom = false
 				}
 			}
-			r.Check(okDom, "C18/SINK-BOUND", fnShort(fn)+" RTCP length guard", p.Pos(guard.Pos()), "too-long packets return an error; every escape and encrypt call is dominated by the passing edge", "an over-long RTCP packet can be sent (the guard does not dominate every way out, or does not return an error)")
+			r.Check(okDom, rule, fnShort(fn)+" RTCP length guard", p.Pos(guard.Pos()), "too-long packets return an error; every escape and encrypt call is dominated by the passing edge", "an over-long RTCP packet can be sent (the guard does not dominate every way out, or does not return an error)")
 		default:
 			// the function delegates marshalling and encryption to a helper that hands the buffers
 			// back (checked above as an entry of its own): what leaves must follow the helper's success
@@ -1282,7 +1344,7 @@ func c18SinkBound(c *Ctx) {
 				}
 			}
 			if len(helperCalls) == 0 {
-				r.Fail("C18/SINK-BOUND", fnShort(fn)+" shape", p.Pos(fn.Pos()), "write entry point with neither MarshalTo nor Marshal: cannot be classified")
+				r.Fail(rule, fnShort(fn)+" shape", p.Pos(fn.Pos()), "write entry point with neither MarshalTo nor Marshal: cannot be classified")
 				break
 			}
 			okErr := true
@@ -1297,14 +1359,14 @@ func c18SinkBound(c *Ctx) {
 					okErr = false
 				}
 			}
-			r.Check(okErr, "C18/SINK-BOUND", fnShort(fn)+" sends only after its encode helper succeeded", p.Pos(helperCalls[0].Pos()), "every escape sits on the err == nil edge of the helper that marshals and encrypts", "a buffer can leave although the helper that bounds it reported an error")
+			r.Check(okErr, rule, fnShort(fn)+" sends only after its encode helper succeeded", p.Pos(helperCalls[0].Pos()), "every escape sits on the err == nil edge of the helper that marshals and encrypts", "a buffer can leave although the helper that bounds it reported an error")
 		}
 	}
 	// the multicast writer's private copy of the limit comes from the server's
 	if f := p.Field("", "serverMulticastWriterMedia", "maxPacketSize"); f != nil {
 		for _, acc := range p.FieldAccesses(f) {
 			if st, ok := acc.Instr.(*ssa.Store); ok && st.Addr == ssa.Value(acc.Addr) {
-				r.Check(isMaxPacketSizeLoad(st.Val), "C18/SINK-BOUND", fnShort(acc.Fn)+" sets serverMulticastWriterMedia.maxPacketSize", p.Pos(st.Pos()), "copied from Server.MaxPacketSize", "the multicast writer's limit is not the server's MaxPacketSize")
+				r.Check(isMaxPacketSizeLoad(st.Val), rule, fnShort(acc.Fn)+" sets serverMulticastWriterMedia.maxPacketSize", p.Pos(st.Pos()), "copied from Server.MaxPacketSize", "the multicast writer's limit is not the server's MaxPacketSize")
 			}
 		}
 	}
